@@ -16,6 +16,7 @@ code -> spec: seeded rectangles up to 10 x 10 of small rationals, blanks and
 import hashlib
 import json
 import random
+import re
 import time
 from fractions import Fraction
 
@@ -252,14 +253,79 @@ def driver(seed, count):
         for _ in range(rng.choice([0, 0, 1, 1, 2])):
             args.append((rnum(rng, [1, 2, 4]), [0, 0]))
         rng.shuffle(args)
-        ev.append({'f': f, 'args': [a for a, _ in args], 'lay': [l for _, l in args], 'path': path, 'origin': origin})
+        e = {'f': f, 'args': [a for a, _ in args], 'lay': [l for _, l in args], 'path': path, 'origin': origin}
+        if path == 'formula' and rng.random() < 0.5:
+            prev = with_previous(rng, e)
+            if prev is not None:
+                e['prev_args'] = prev
+        ev.append(e)
     return ev
+
+
+_RANGE = re.compile(r'([A-Z]+)(\d+):([A-Z]+)(\d+)')
+RESULT2 = 'Sheet1!AZ2'
+
+
+def reuse_eval(e):
+    """the model is first built and evaluated with EARLIER cell contents (prev_args), together with a second
+    formula over the bounding block (an overlapping range address); the changed cells are then set through
+    set_cell_value and the formula is evaluated again by the same evaluator: the result must reflect the
+    current contents (stale range values would show here)"""
+    origin = e.get('origin') or (3, 2)
+    cells_prev, text = build_formula(dict(e, args=e['prev_args']), 'absent', origin)
+    cells_now, _ = build_formula(e, 'absent', origin)
+    parts = _RANGE.findall(text)
+    try:
+        formulas = {RESULT: text}
+        if parts:
+            cols = [COLS.index(p[0]) for p in parts] + [COLS.index(p[2]) for p in parts]
+            rows = [int(p[1]) for p in parts] + [int(p[3]) for p in parts]
+            formulas[RESULT2] = f'=SUM({COLS[min(cols)]}{min(rows)}:{COLS[max(cols)]}{max(rows)})+COUNTA({COLS[min(cols)]}{min(rows)}:{COLS[max(cols)]}{max(rows) + 1})'
+        model, ev = xl.build_model(cells_prev, formulas)
+        if parts:
+            ev.evaluate(RESULT2)
+        ev.evaluate(RESULT)
+        for addr, spec in cells_now.items():
+            if cells_prev.get(addr) != spec and spec[0] == 'value':
+                ev.set_cell_value(addr, spec[1])
+        res = ev.evaluate(RESULT)
+        return xl.to_abs(res), None, text
+    except BaseException as ex:      # noqa
+        if isinstance(ex, (KeyboardInterrupt, SystemExit)):
+            raise
+        return xl.to_abs(ex), None, text
+
+
+def with_previous(rng, e):
+    """a copy of the arguments in which some numeric range cells hold other numbers (same layout, same types)"""
+    import copy
+    prev = copy.deepcopy(e['args'])
+    changed = 0
+    seen = {}
+    for a, at in zip(prev, e['lay']):
+        if a['t'] != 'arr' or at[0] <= 0:
+            continue
+        for i, row in enumerate(a['v']):
+            for j, x in enumerate(row):
+                key = (at[0] + i, at[1] + j)
+                if x['t'] == 'num':
+                    if key not in seen:
+                        seen[key] = N(Fraction(rng.randint(1, 9))) if rng.random() < 0.4 else x
+                    if seen[key] != x:
+                        changed += 1
+                    row[j] = seen[key]
+    return prev if changed else None
 
 
 def record(chunk):
     out = []
     for e in chunk:
-        res, stored, text = observe(e, e['path'])
+        if e.get('prev_args'):
+            res, stored, text = reuse_eval(e)
+            e = {k: v for k, v in e.items() if k != 'prev_args'}
+            e['path'] = 'formula-reuse'
+        else:
+            res, stored, text = observe(e, e['path'])
         e = dict(e, res=res)
         if text:
             e['formula'] = [ord(c) for c in text]
